@@ -16,6 +16,7 @@
 -/
 import IvpModel.Proofs.TreesLemmas
 import IvpModel.Proofs.StageEqs853
+import IvpModel.Model.RadauTab
 
 open BTree
 
@@ -97,6 +98,28 @@ theorem dop853_est3_order3 : (∀ t : BTree, t.order ≤ 3 →
       condApprox dop853Tab3.N dop853Tab3.M dop853Tab3.S (10 ^ 20) t = true)
     ∧ ∃ t : BTree, t.order = 4 ∧ condApprox dop853Tab3.N dop853Tab3.M dop853Tab3.S (10 ^ 6) t = false :=
   ⟨forall_of_all (p := 3) (by decide +kernel), ⟨.graft (.graft (.graft .leaf .leaf) .leaf) .leaf, by decide +kernel⟩⟩
+
+/-! ### Radau IIA (order 5)
+
+  `Radau14.constantsCheck` (kernel-evaluated on the regenerated literals): the matrices the simplified Newton iteration
+  factorises, (U1/h)I − J and ((ALPH ± iBETA)/h)I − J, with the transformations T, TI, are the eigen-decomposition of
+  the inverse of the 3-stage Radau IIA matrix A(√6) to 1e-13; the stage times C1, C2 are its nodes (4∓√6)/10; the
+  characteristic polynomials of A and A − 1bᵀ are those of the (2,3) Padé approximant, i.e. one step on y' = λy multiplies
+  by P(hλ)/Q(hλ).  `radau_order5`: that tableau, with the stage times the code uses, satisfies every rooted-tree order
+  condition up to order 5 (to 1e-14: s6 is a 1e-17 rational approximation of √6), its rows sum to the code's stage
+  times, and it is not of order 6.  (The Newton iteration converging to the stage equations is run-time behaviour:
+  X-radau / order-probe.) -/
+
+theorem radau_constants : Radau14.constantsCheck = true := by decide +kernel
+
+theorem radau_order5 : (∀ t : BTree, t.order ≤ 5 →
+      condApprox Radau14.radauTab.N Radau14.radauTab.M Radau14.radauTab.S (10 ^ 14) t = true)
+    ∧ Radau14.radauTab.rowSumApproxOK (10 ^ 14) = true ∧ Radau14.radauTab.nodesInUnit = true :=
+  ⟨forall_of_all (p := 5) (by decide +kernel), by decide +kernel, by decide +kernel⟩
+
+theorem radau_not_order6 : ∃ t : BTree, t.order = 6 ∧
+    condApprox Radau14.radauTab.N Radau14.radauTab.M Radau14.radauTab.S (10 ^ 6) t = false :=
+  ⟨.graft (.graft (.graft (.graft (.graft .leaf .leaf) .leaf) .leaf) .leaf) .leaf, by decide +kernel⟩
 
 /-! ### the code is that scheme
   `rk4_stage_eqs`, `rk4_update_eq`, `rk23_stage_eqs`, `rk23_new_state`, `rk23_err_eq`, `dopri5_stage_eqs`,
